@@ -88,6 +88,7 @@ func main() {
 				for _, o := range rep.Obligations {
 					relv.AddRoot(relv.Subject(o.Pos))
 				}
+				relv.AddConstructorsOfOperands()
 				relvs = append(relvs, relv)
 			}
 			relevant := func(o check.Obligation) bool {
@@ -103,12 +104,14 @@ func main() {
 			for k, v := range rep.Floors {
 				floors[k] = v
 			}
+			ctx.AsDep = true
 			for _, dep := range rules.DepsClosure(id) {
 				if g, ok := rules.Registry[dep]; ok {
 					g(ctx)
 					ran = append(ran, dep)
 				}
 			}
+			ctx.AsDep = false
 			kept := rep.Obligations[:own:own]
 			dropped := 0
 			for _, o := range rep.Obligations[own:] {
